@@ -85,6 +85,9 @@ TWINS = [
     ("kernelrim-stores-a-copy", "gemclus/linear/_linear_geminis.py", [("        self.input_data_ = X\n", "        self.input_data_ = np.array(X)\n")]),
     ("kernelrim-predict-via-local", "gemclus/linear/_linear_geminis.py",
      [("        kernel = self._compute_kernel(X)\n        return self._infer(kernel", "        K_new = self._compute_kernel(X)\n        kernel = K_new\n        return self._infer(kernel")]),
+    ("mlp-mean-bias-grad-by-batch", "gemclus/mlp/_mlp_geminis.py",
+     [("        b2_grad = tau_hat_grad.sum(0, keepdims=True)", "        b2_grad = tau_hat_grad.mean(0, keepdims=True) * len(tau_hat_grad)")]),
+    ("douglas-divide-by-param", "gemclus/tree/douglas.py", [("            bin_grad /= self.temperature\n", "            bin_grad = bin_grad / self.temperature\n")]),
     ("get-gemini-local", "gemclus/mlp/_mlp_geminis.py",
      [("        return MMDGEMINI(ovo=self.ovo, kernel=self.kernel, kernel_params=self.kernel_params)", "        return MMDGEMINI(kernel=self.kernel, ovo=self.ovo, kernel_params=self.kernel_params)")]),
 ]
